@@ -14,14 +14,14 @@
    [bits, sgn]; int and long of the platform are IntBits and LongBits wide (long long = long).
    Right shift of a negative value is arithmetic (GCC documents it).
 
-   IMPLEMENTATION MODEL  CffiEval: Parser._parse_constant and _c_div of src/cffi/cparser.py,
-   which evaluate with untyped, unbounded Python integers.
+   IMPLEMENTATION MODEL  CffiEval: Parser._parse_constant, _c_div and _c_shift_count of
+   src/cffi/cparser.py (as of commit 4d735ce), which evaluate with untyped, unbounded Python integers.
 
    Eval(e) runs both in one pass and, where they differ although all sub-expressions agree, names
    the culprit node's class:  "char-escape:<ch>", "unsigned-wrap:<op>",
    "negative-to-unsigned:<op>" or "other:<op>".                                              *)
 EXTENDS PlatformBV
-CONSTANTS IntBits, LongBits, Variant      \* Variant: "faithful" | "floordiv" | "pymod"
+CONSTANTS IntBits, LongBits, Variant      \* Variant: "faithful" | "floordiv" | "pymod" | "ordchr"
 
 TInt   == [bits |-> IntBits,  sgn |-> TRUE]
 TUInt  == [bits |-> IntBits,  sgn |-> FALSE]
@@ -51,11 +51,11 @@ CLit(e) ==
      THEN Val(ts[CHOOSE i \in 1..Len(ts) : Fits(z, ts[i]) /\ \A j \in 1..(i - 1) : ~Fits(z, ts[j])], z)
      ELSE Undef                              \* no type can represent the constant
 
-\* 6.4.4.4: simple escape sequences  \n \t \r \0 \a \b \f \v \\ \' \" \?
-EscVal(ch) == CASE ch = 110 -> 10 [] ch = 116 -> 9 [] ch = 114 -> 13 [] ch = 48 -> 0 [] ch = 97 -> 7
+\* 6.4.4.4: simple escape sequences  \n \t \r \a \b \f \v \\ \' \" \?  and one-digit octal escapes \0 .. \7
+EscVal(ch) == CASE ch = 110 -> 10 [] ch = 116 -> 9 [] ch = 114 -> 13 [] ch = 97 -> 7
                 [] ch = 98 -> 8 [] ch = 102 -> 12 [] ch = 118 -> 11 [] ch = 92 -> 92 [] ch = 39 -> 39
-                [] ch = 34 -> 34 [] ch = 63 -> 63
-IsEsc(ch) == ch \in {110, 116, 114, 48, 97, 98, 102, 118, 92, 39, 34, 63}
+                [] ch = 34 -> 34 [] ch = 63 -> 63 [] ch \in 48..55 -> ch - 48
+IsEsc(ch) == ch \in {110, 116, 114, 97, 98, 102, 118, 92, 39, 34, 63} \cup (48..55)
 CChr(e) == IF e.esc THEN (IF IsEsc(e.ch) THEN Val(TInt, Z(EscVal(e.ch))) ELSE Undef) ELSE Val(TInt, Z(e.ch))
 
 \* 6.3.1.8 usual arithmetic conversions (all our types have rank >= int: promotions are no-ops)
@@ -104,10 +104,16 @@ PVal(v) == [err |-> "", v |-> v]
 \* :881-896  s.rstrip('uUlL'); int(s, 8) if it starts with '0' else int(s, 10); on ValueError hex
 \* (i.e. the value of the digits in their base, whatever the suffix)
 PLit(e) == PVal(ZMk(FALSE, e.mag))
-\* :897-899  ord(s[-2]): the character before the closing quote, escaped or not
-PChr(e) == PVal(Z(e.ch))
+\* character constants (cparser.py, after fix 4d735ce):
+\*   _char_escapes = {'a':7,'b':8,'f':12,'n':10,'r':13,'t':9,'v':11,'0':0,...,'7':7}
+\*   if len(s) == 4 and s[2] in _char_escapes: return _char_escapes[s[2]];  return ord(s[-2])
+\* Variant "ordchr" is the evaluation before the fix (always ord(s[-2])): '\n' = 110.
+CharEscapes(ch) == CASE ch = 97 -> 7 [] ch = 98 -> 8 [] ch = 102 -> 12 [] ch = 110 -> 10 [] ch = 114 -> 13
+                     [] ch = 116 -> 9 [] ch = 118 -> 11 [] ch \in 48..55 -> ch - 48
+InCharEscapes(ch) == ch \in {97, 98, 102, 110, 114, 116, 118} \cup (48..55)
+PChr(e) == IF e.esc /\ InCharEscapes(e.ch) /\ Variant # "ordchr" THEN PVal(Z(CharEscapes(e.ch))) ELSE PVal(Z(e.ch))
 
-\* :951-955 _c_div
+\* _c_div (division by zero raises FFIError since 28f0f99 - handled by the callers below)
 PCDiv(a, b) ==
   IF Variant = "floordiv" THEN ZDivFloor(a, b)
   ELSE Bind(ZDivFloor(a, b), LAMBDA result :                                           \* a // b
@@ -122,15 +128,14 @@ PBinary(op, x, y) ==                                                            
        IN CASE op = "+" -> PVal(ZAdd(a, b))
             [] op = "-" -> PVal(ZSub(a, b))
             [] op = "*" -> PVal(ZMul(a, b))
-            [] op = "/" -> IF ZIsZero(b) THEN PErr("ZeroDivisionError") ELSE PVal(PCDiv(a, b))
-            [] op = "%" -> IF ZIsZero(b) THEN PErr("ZeroDivisionError")
+            [] op = "/" -> IF ZIsZero(b) THEN PErr("FFIError: division by zero") ELSE PVal(PCDiv(a, b))
+            [] op = "%" -> IF ZIsZero(b) THEN PErr("FFIError: division by zero")
                            ELSE IF Variant = "pymod" THEN PVal(ZModFloor(a, b))
                            ELSE PVal(ZSub(a, ZMul(PCDiv(a, b), b)))                      \* left - _c_div(left, right) * right
-            [] op = "<<" -> IF b.neg THEN PErr("ValueError: negative shift count")
-                            ELSE IF ZLt(Z(4096), b) THEN PErr("huge shift")              \* (outside the class anyway)
+            \* _c_shift_count (9ddc2f3): not (0 <= n < 64) raises FFIError
+            [] op = "<<" -> IF b.neg \/ ~ZLt(b, Z(64)) THEN PErr("FFIError: invalid shift count")
                             ELSE PVal(ZShl(a, ZToInt(b)))
-            [] op = ">>" -> IF b.neg THEN PErr("ValueError: negative shift count")
-                            ELSE IF ZLt(Z(4096), b) THEN PVal(IF a.neg THEN ZNeg(Z1) ELSE Z0)
+            [] op = ">>" -> IF b.neg \/ ~ZLt(b, Z(64)) THEN PErr("FFIError: invalid shift count")
                             ELSE PVal(ZShrFloor(a, ZToInt(b)))
             [] op = "&" -> PVal(ZBitOp("and", a, b, V, TRUE))                            \* Python: infinite two's complement
             [] op = "|" -> PVal(ZBitOp("or", a, b, V, TRUE))
@@ -139,8 +144,9 @@ PBinary(op, x, y) ==                                                            
 (***************************************************************************)
 (* both evaluations in one pass, per node                                  *)
 (***************************************************************************)
-ChName(ch) == CASE ch = 110 -> "n" [] ch = 116 -> "t" [] ch = 114 -> "r" [] ch = 48 -> "0" [] ch = 97 -> "a"
-                [] ch = 98 -> "b" [] ch = 102 -> "f" [] ch = 118 -> "v" [] OTHER -> "?"
+ChName(ch) == CASE ch = 110 -> "n" [] ch = 116 -> "t" [] ch = 114 -> "r" [] ch = 97 -> "a"
+                [] ch = 98 -> "b" [] ch = 102 -> "f" [] ch = 118 -> "v"
+                [] ch \in 48..55 -> <<"0", "1", "2", "3", "4", "5", "6", "7">>[ch - 47] [] OTHER -> "?"
 
 \* class of a node at which the two evaluations part although they agree on all operands
 Classify(e, c, xs) ==
@@ -178,7 +184,6 @@ Defined(e) == Eval(e).c.def
 \* The classes of disagreement that are recorded as known findings of C09; everything else is
 \* required to agree.
 KnownClass(cls) ==
-  \/ cls \in {"char-escape:" \o x : x \in {"n", "t", "r", "0", "a", "b", "f", "v"}}
   \/ cls \in {"unsigned-wrap:" \o x : x \in {"neg", "+", "-", "*", "<<"}}
   \/ cls \in {"negative-to-unsigned:" \o x : x \in {"+", "-", "*", "/", "%", "&", "|", "^"}}
 
